@@ -160,6 +160,25 @@ pub struct LFault {
     pub action: LAction,
 }
 
+/// Something the environment does to the work tree while monorail is parked at a point (another
+/// process, or an earlier step of the same run, changing files under a run in progress).
+#[derive(Serialize, Deserialize, Clone, Debug, PartialEq)]
+pub enum EnvAct {
+    Chmod { rel: String, mode: u32 },
+    Write { rel: String, content: String },
+    Remove { rel: String },
+    /// a command file that has been a plain, non-executable file since before the run started becomes
+    /// executable (it is replaced by the helper): whoever prepares the world downgrades the file first
+    MakeHelper { rel: String },
+}
+#[derive(Serialize, Deserialize, Clone, Debug, PartialEq)]
+pub struct EnvAction {
+    /// when the nth (1-based) occurrence of the named point arrives, before it is answered
+    pub point: String,
+    pub nth: usize,
+    pub act: EnvAct,
+}
+
 #[derive(Serialize, Deserialize, Clone, Debug, PartialEq)]
 pub struct RunScript {
     pub opts: RunOpts,
@@ -195,6 +214,8 @@ pub struct RunScript {
     /// FSFAULT_WRITE_STALL coordinate: "<class substring>:<k>:<ms>" (a stalled disk under the output directory)
     #[serde(default)]
     pub fs_write_stall: Option<String>,
+    #[serde(default)]
+    pub env_actions: Vec<EnvAction>,
 }
 impl RunScript {
     pub fn simple(opts: RunOpts) -> RunScript {
@@ -213,6 +234,7 @@ impl RunScript {
             fs_log: None,
             lfaults: vec![],
             fs_write_stall: None,
+            env_actions: vec![],
         }
     }
     pub fn behav_for(&self, command: &str, target: &str) -> Option<&Behav> {
@@ -259,6 +281,7 @@ pub struct RunTrace {
     /// starts that could not be attributed to a known command file
     pub unknown_starts: Vec<String>,
     pub exit: Option<ProcExit>,
+    pub env_actions_done: usize,
     pub hang: Option<String>,
     pub killed: bool,
     pub log: Vec<String>,
@@ -352,6 +375,7 @@ pub fn drive_run_l(w: &mut World, actor: &str, sc: &RunScript, hang: Duration, l
         }
     };
     let argv0_map = w.argv0_map.clone();
+    let root = w.root.clone();
     let ctl = w.ctl.as_mut().unwrap();
     let mut rng = Rng::new(sc.sched_seed);
     tr.log.push(format!("start {} {}", actor, args.join(" ")));
@@ -693,6 +717,20 @@ pub fn drive_run_l(w: &mut World, actor: &str, sc: &RunScript, hang: Duration, l
                                 done_instructed = 0;
                             }
                             _ => {}
+                        }
+                        for ea in sc.env_actions.iter().filter(|a| a.point == p.name && a.nth == nth) {
+                            use std::os::unix::fs::PermissionsExt;
+                            let r = match &ea.act {
+                                EnvAct::Chmod { rel, mode } => std::fs::set_permissions(root.join(rel), std::fs::Permissions::from_mode(*mode)),
+                                EnvAct::Write { rel, content } => std::fs::write(root.join(rel), content),
+                                EnvAct::Remove { rel } => std::fs::remove_file(root.join(rel)),
+                                EnvAct::MakeHelper { rel } => {
+                                    let _ = std::fs::remove_file(root.join(rel));
+                                    std::os::unix::fs::symlink(crate::world::bin_dir().join("vhelper"), root.join(rel))
+                                }
+                            };
+                            tr.env_actions_done += 1;
+                            tr.log.push(format!("env {:?} at {} #{} -> {}", ea.act, p.name, nth, if r.is_ok() { "ok" } else { "failed" }));
                         }
                         lfault!(LTrigger::AtPoint { name: p.name.clone(), nth });
                         if let Some(Kill::AtPoint { name, nth: k }) = &sc.kill {
